@@ -1,22 +1,44 @@
-//! C12, keyed: the REAL `WindowOperator` with count windows, through the public API
-//! `stream(ScriptOp).key_by(first component).window(CountWindow::new(n, s, exact)).fold(Vec::new(), push)`,
-//! chain taken out with `take_ops_keyed` and pulled until `Terminate`.
+//! C12, keyed: the REAL `WindowOperator` with count windows and the REAL window aggregators of
+//! src/operator/window/aggr/, through the public API.
 //!
-//! header: `cwinop <N> <S> <exact>`; ops: `e <elem>` with payloads `(<key>,<id>)`.
-//! output lines: `<n> <elem>` — the operator's output elements in order, `n` = number of data
-//! elements the operator had consumed when `next()` returned the element (observed through the
-//! `key_by` closure, which `KeyBy::next` calls exactly once per data element). A count-window
-//! manager yields at most one result per data element, several managers yield results at
-//! `FlushAndRestart`/`Terminate` in hash-map order: maximal runs of data lines with equal `n` are
-//! sorted (on both sides).
-use std::sync::atomic::{AtomicUsize, Ordering};
+//! header: `cwinop <N> <S> <exact> <agg> <mode>`; ops: `e <elem>` with payloads `(<key>,<id>,<v>)`.
+//!
+//! agg (what follows `.window(CountWindow::new(n, s, exact))`):
+//!   collect `.fold(Vec::new(), push)`        map   `.map(|v: Vec<_>| v)` (CollectVec)
+//!   sum     `.sum::<SumV>()` (Fold)           count `.count()`
+//!   min/max `.min()`/`.max()` on the values `v` (FoldFirst)
+//!   mink/maxk `.min_by_key(v)`/`.max_by_key(v)` on the payloads (ties: the first one wins)
+//!   first/last `.first()`/`.last()`           foldnc `.fold(0, |s, x| s = (31 s + v) mod 1000003)`
+//!
+//! mode `op`: `stream(Script).key_by(first component).window(..).<agg>`, chain taken out with
+//!   `take_ops_keyed`, pulled until `Terminate`. `Script` is a source defined HERE (public traits
+//!   `Operator` + `Source`) that replays the op lines and records how many elements were pulled and
+//!   whether the last one was a control element. Output lines `<n> <d|c> <elem>`: the operator's
+//!   output elements in order, `n` = number of data elements pulled so far, `d`/`c` = the element
+//!   pulled last (the one that triggered this output) was a data / control element. The results
+//!   triggered by ONE input element are sorted (hash-map order of the managers at
+//!   `FlushAndRestart`/`Terminate`).
+//! mode `seq<P>`: whole engine, `StreamContext::new(RuntimeConfig::local(P))`:
+//!   `stream_iter(data).group_by(key).window(..).<agg>.collect_vec()` (one source replica, so the
+//!   arrival order per key is the script order); control op lines are ignored. Output: one line
+//!   `<key> [<results of the key in order>]` per key, sorted.
+//! mode `par<P>`: the same with `stream_par_iter` (P source replicas: the arrival order per key is
+//!   not determined) — only generated with `count`, whose results do not depend on the order.
+use std::collections::{BTreeMap, VecDeque};
+use std::fmt::{self, Display};
+use std::ops::AddAssign;
+use std::sync::atomic::{AtomicBool, AtomicUsize, Ordering};
 use std::sync::Arc;
 
 use nvh::*;
+use renoir::operator::source::Source;
 use renoir::operator::window::CountWindow;
 use renoir::operator::{Operator, StreamElement};
-use renoir::verif::{take_ops_keyed, Coord, FakeNet, ScriptOp};
-use renoir::{BatchMode, StreamContext};
+use renoir::structure::{BlockStructure, OperatorStructure};
+use renoir::verif::{take_ops_keyed, Coord, FakeNet};
+use renoir::{BatchMode, ExecutionMetadata, KeyedStream, Replication, RuntimeConfig, StreamContext};
+
+const AGGS: [&str; 11] = ["collect", "map", "sum", "count", "min", "max", "mink", "maxk", "first", "last", "foldnc"];
 
 fn key_of(v: &Val) -> Val {
     match v {
@@ -25,26 +47,253 @@ fn key_of(v: &Val) -> Val {
     }
 }
 
-fn gen(rng: &mut Rng, i: usize) -> Case {
-    // boundary-seeking (N, S) as in cwin.rs: S = 1, S = N, S | N, arbitrary S <= N
-    let n = if rng.chance(1, 10) { 1 } else { rng.range(2, 7) as usize };
-    let s = match rng.below(6) {
-        0 => 1,
-        1 => n,
-        2 => {
-            let d: Vec<usize> = (1..=n).filter(|d| n % d == 0).collect();
-            *rng.pick(&d)
+/// third component of the payload
+fn val_of(v: &Val) -> i64 {
+    match v {
+        Val::Tup(l) if l.len() >= 3 => match &l[2] {
+            Val::Int(n) => *n,
+            _ => 0,
+        },
+        _ => 0,
+    }
+}
+
+/// accumulator of `.sum()`: `NewOut: Default + AddAssign<Out>`
+#[derive(Clone, Default)]
+struct SumV(i64);
+impl AddAssign<Val> for SumV {
+    fn add_assign(&mut self, rhs: Val) {
+        self.0 += val_of(&rhs);
+    }
+}
+
+/// The source: replays a script, observable from outside.
+#[derive(Clone)]
+struct Script {
+    buf: VecDeque<StreamElement<Val>>,
+    pulled: Arc<AtomicUsize>,
+    data: Arc<AtomicUsize>,
+    last_ctrl: Arc<AtomicBool>,
+}
+impl Display for Script {
+    fn fmt(&self, f: &mut fmt::Formatter<'_>) -> fmt::Result {
+        write!(f, "Script")
+    }
+}
+impl Operator for Script {
+    type Out = Val;
+    fn setup(&mut self, _metadata: &mut ExecutionMetadata) {}
+    fn next(&mut self) -> StreamElement<Val> {
+        let e = self.buf.pop_front().unwrap_or(StreamElement::Terminate);
+        let is_data = matches!(e, StreamElement::Item(_) | StreamElement::Timestamped(_, _));
+        self.pulled.fetch_add(1, Ordering::SeqCst);
+        if is_data {
+            self.data.fetch_add(1, Ordering::SeqCst);
         }
-        _ => rng.range(1, n as i64) as usize,
+        self.last_ctrl.store(!is_data, Ordering::SeqCst);
+        e
+    }
+    fn structure(&self) -> BlockStructure {
+        BlockStructure::default().add_operator(OperatorStructure::new::<Val, _>("Script"))
+    }
+}
+impl Source for Script {
+    fn replication(&self) -> Replication {
+        Replication::One
+    }
+}
+
+/// what to do with the aggregated keyed stream (its operator type differs per aggregator)
+trait Cont {
+    type R;
+    fn run<Op: Operator<Out = (Val, Val)> + 'static>(self, ks: KeyedStream<Op>) -> Self::R;
+}
+
+fn apply_agg<Op, C>(ks: KeyedStream<Op>, cw: CountWindow, agg: &str, c: C) -> C::R
+where
+    Op: Operator<Out = (Val, Val)> + 'static,
+    C: Cont,
+{
+    match agg {
+        "collect" => c.run(ks.window(cw).fold(Vec::new(), |v: &mut Vec<Val>, x: Val| v.push(x)).map(|(_, v)| Val::List(v))),
+        "map" => c.run(ks.window(cw).map(|v: Vec<Val>| v).map(|(_, v)| Val::List(v))),
+        "sum" => c.run(ks.window(cw).sum::<SumV>().map(|(_, s)| Val::Int(s.0))),
+        "count" => c.run(ks.window(cw).count().map(|(_, n)| Val::Int(n as i64))),
+        "min" => c.run(ks.map(|(_, v)| val_of(&v)).window(cw).min().map(|(_, x)| Val::Int(x))),
+        "max" => c.run(ks.map(|(_, v)| val_of(&v)).window(cw).max().map(|(_, x)| Val::Int(x))),
+        "mink" => c.run(ks.window(cw).min_by_key(|p: &Val| val_of(p))),
+        "maxk" => c.run(ks.window(cw).max_by_key(|p: &Val| val_of(p))),
+        "first" => c.run(ks.window(cw).first()),
+        "last" => c.run(ks.window(cw).last()),
+        "foldnc" => c.run(
+            ks.window(cw)
+                .fold(0i64, |s: &mut i64, x: Val| *s = (*s * 31 + val_of(&x)).rem_euclid(1_000_003))
+                .map(|(_, s)| Val::Int(s)),
+        ),
+        other => panic!("unknown aggregator {other}"),
+    }
+}
+
+/// `op` mode continuation: pull the chain until `Terminate`
+struct Pull {
+    pulled: Arc<AtomicUsize>,
+    data: Arc<AtomicUsize>,
+    last_ctrl: Arc<AtomicBool>,
+}
+impl Cont for Pull {
+    type R = Vec<String>;
+    fn run<Op: Operator<Out = (Val, Val)> + 'static>(self, ks: KeyedStream<Op>) -> Vec<String> {
+        let mut op = take_ops_keyed(ks);
+        let me = Coord::new(0, 0, 0);
+        let mut net = FakeNet::new(me);
+        net.with_metadata(vec![me], 0, BatchMode::fixed(1), |m| op.setup(m));
+        // (is data line, index of the triggering input element, text)
+        let mut lines: Vec<(bool, usize, String)> = vec![];
+        loop {
+            let e = op.next();
+            let pulled = self.pulled.load(Ordering::SeqCst);
+            let n = self.data.load(Ordering::SeqCst);
+            let flag = if self.last_ctrl.load(Ordering::SeqCst) { "c" } else { "d" };
+            let term = matches!(e, StreamElement::Terminate);
+            let is_data = matches!(e, StreamElement::Item(_) | StreamElement::Timestamped(_, _));
+            let e = e.map(|(k, v)| Val::pair(k, v));
+            lines.push((is_data, pulled, format!("{n} {flag} {}", fmt_elem(&e))));
+            if term {
+                break;
+            }
+        }
+        // sort the results triggered by one input element
+        let mut out = vec![];
+        let mut unit: Vec<String> = vec![];
+        let mut unit_at = 0usize;
+        for (is_data, at, l) in lines {
+            if is_data && (unit.is_empty() || unit_at == at) {
+                unit_at = at;
+                unit.push(l);
+                continue;
+            }
+            unit.sort();
+            out.append(&mut unit);
+            if is_data {
+                unit_at = at;
+                unit.push(l);
+            } else {
+                out.push(l);
+            }
+        }
+        unit.sort();
+        out.append(&mut unit);
+        out
+    }
+}
+
+/// engine mode continuation: collect
+struct Collect;
+impl Cont for Collect {
+    type R = renoir::prelude::StreamOutput<Vec<(Val, Val)>>;
+    fn run<Op: Operator<Out = (Val, Val)> + 'static>(self, ks: KeyedStream<Op>) -> Self::R {
+        ks.collect_vec()
+    }
+}
+
+fn script_of(c: &Case) -> Vec<StreamElement<Val>> {
+    c.ops.iter().filter(|op| op[0] == "e").map(|op| parse_elem(&op[1]).expect("bad elem")).collect()
+}
+
+fn exec(c: &Case) -> Vec<String> {
+    let n: usize = c.header[1].parse().unwrap();
+    let s: usize = c.header[2].parse().unwrap();
+    let exact = c.header[3] == "1";
+    let agg = c.header.get(4).map(|s| s.as_str()).unwrap_or("collect");
+    let mode = c.header.get(5).map(|s| s.as_str()).unwrap_or("op");
+    let script = script_of(c);
+    let cw = CountWindow::new(n, s, exact);
+    if mode == "op" {
+        let pulled = Arc::new(AtomicUsize::new(0));
+        let data = Arc::new(AtomicUsize::new(0));
+        let last_ctrl = Arc::new(AtomicBool::new(false));
+        let src = Script { buf: script.into(), pulled: pulled.clone(), data: data.clone(), last_ctrl: last_ctrl.clone() };
+        let ctx = StreamContext::new_local();
+        let ks = ctx.stream(src).key_by(key_of);
+        return apply_agg(ks, cw, agg, Pull { pulled, data, last_ctrl });
+    }
+    // whole engine
+    let par: u64 = mode[3..].parse().unwrap();
+    let items: Vec<Val> = script
+        .into_iter()
+        .filter_map(|e| match e {
+            StreamElement::Item(v) | StreamElement::Timestamped(v, _) => Some(v),
+            _ => None,
+        })
+        .collect();
+    let ctx = StreamContext::new(RuntimeConfig::local(par).unwrap());
+    let out = if mode.starts_with("seq") {
+        let ks = ctx.stream_iter(items.into_iter()).group_by(key_of);
+        apply_agg(ks, cw, agg, Collect)
+    } else {
+        let ks = ctx
+            .stream_par_iter(move |id: u64, peers: u64| {
+                items.clone().into_iter().skip(id as usize).step_by(peers as usize)
+            })
+            .group_by(key_of);
+        apply_agg(ks, cw, agg, Collect)
+    };
+    ctx.execute_blocking();
+    let res = out.get().unwrap_or_default();
+    let mut per_key: BTreeMap<i64, Vec<Val>> = BTreeMap::new();
+    for (k, v) in res {
+        per_key.entry(k.int()).or_default().push(v);
+    }
+    per_key.into_iter().map(|(k, vs)| format!("{k} {}", Val::List(vs))).collect()
+}
+
+fn gen(rng: &mut Rng, i: usize) -> Case {
+    // boundary-seeking (N, S): S = 1, S = N, S | N, arbitrary S <= N; one case in four with a
+    // large window (N up to 40) and a slide that is not a small divisor of N
+    let large = rng.chance(1, 4);
+    let n = if large {
+        rng.range(8, 40) as usize
+    } else if rng.chance(1, 10) {
+        1
+    } else {
+        rng.range(2, 7) as usize
+    };
+    let s = if large {
+        match rng.below(4) {
+            0 => rng.range(1, 3) as usize,                                  // N/S large: many open slots
+            1 => rng.range((n as i64) / 2, n as i64) as usize,             // about two open slots
+            2 => {
+                let nd: Vec<usize> = (2..n).filter(|d| n % d != 0).collect(); // S does not divide N
+                if nd.is_empty() { n } else { *rng.pick(&nd) }
+            }
+            _ => rng.range(1, n as i64) as usize,
+        }
+    } else {
+        match rng.below(6) {
+            0 => 1,
+            1 => n,
+            2 => {
+                let d: Vec<usize> = (1..=n).filter(|d| n % d == 0).collect();
+                *rng.pick(&d)
+            }
+            _ => rng.range(1, n as i64) as usize,
+        }
     };
     let exact = rng.chance(1, 2);
-    let mut c = Case::new(&["cwinop", &n.to_string(), &s.to_string(), if exact { "1" } else { "0" }]);
-    let nkeys = rng.range(1, 4);
+    let mode = match rng.below(12) {
+        0 => format!("seq{}", rng.range(1, 4)),
+        1 => format!("par{}", rng.range(1, 4)),
+        _ => "op".to_string(),
+    };
+    let agg = if mode.starts_with("par") { "count" } else { *rng.pick(&AGGS) };
+    let mut c = Case::new(&["cwinop", &n.to_string(), &s.to_string(), if exact { "1" } else { "0" }, agg, &mode]);
+    let nkeys = if large { rng.range(1, 2) } else { rng.range(1, 4) };
     // skew: 0 = uniform, 1 = min of two draws, 2 = one hot key
     let skew = rng.below(3);
-    let iters = rng.range(1, 3);
+    let iters = if mode == "op" { rng.range(1, 3) } else { 1 };
     let mut next = (i as i64 % 1000) * 100;
-    let budget = 54 / iters;
+    let total = if large { 110 } else { 54 };
+    let budget = total / iters;
     for _ in 0..iters {
         let len = match rng.below(7) {
             0 => 0,
@@ -68,85 +317,27 @@ fn gen(rng: &mut Rng, i: usize) -> Case {
                     }
                 }
             };
-            let v = Val::pair(Val::Int(k), Val::Int(next));
+            // small value range: ties for min/max
+            let v = Val::Tup(vec![Val::Int(k), Val::Int(next), Val::Int(rng.range(-6, 6))]);
             if timestamped {
                 t += rng.range(-2, 5);
                 c.ops(vec!["e".into(), fmt_elem(&StreamElement::Timestamped(v, t))]);
             } else {
                 c.ops(vec!["e".into(), fmt_elem(&StreamElement::Item(v))]);
             }
-            if rng.chance(1, 12) {
-                c.op(&["e", "FB"]);
-            }
-            if rng.chance(1, 12) {
-                c.ops(vec!["e".into(), format!("W:{t}")]);
+            if mode == "op" {
+                if rng.chance(1, 12) {
+                    c.op(&["e", "FB"]);
+                }
+                if rng.chance(1, 12) {
+                    c.ops(vec!["e".into(), format!("W:{t}")]);
+                }
             }
         }
         c.op(&["e", "FAR"]);
     }
     c.op(&["e", "TERM"]);
     c
-}
-
-/// sort every maximal run of data lines with the same count
-fn canon(lines: Vec<(bool, usize, String)>) -> Vec<String> {
-    let mut out = vec![];
-    let mut unit: Vec<String> = vec![];
-    let mut unit_n = 0usize;
-    for (is_data, n, l) in lines {
-        if is_data && (unit.is_empty() || unit_n == n) {
-            unit_n = n;
-            unit.push(l);
-            continue;
-        }
-        unit.sort();
-        out.append(&mut unit);
-        if is_data {
-            unit_n = n;
-            unit.push(l);
-        } else {
-            out.push(l);
-        }
-    }
-    unit.sort();
-    out.append(&mut unit);
-    out
-}
-
-fn exec(c: &Case) -> Vec<String> {
-    let n: usize = c.header[1].parse().unwrap();
-    let s: usize = c.header[2].parse().unwrap();
-    let exact = c.header[3] == "1";
-    let script: Vec<StreamElement<Val>> =
-        c.ops.iter().filter(|op| op[0] == "e").map(|op| parse_elem(&op[1]).expect("bad elem")).collect();
-    let consumed = Arc::new(AtomicUsize::new(0));
-    let counter = consumed.clone();
-    let ctx = StreamContext::new_local();
-    let st = ctx
-        .stream(ScriptOp::new(script))
-        .key_by(move |v: &Val| {
-            counter.fetch_add(1, Ordering::SeqCst);
-            key_of(v)
-        })
-        .window(CountWindow::new(n, s, exact))
-        .fold(Vec::new(), |v: &mut Vec<Val>, x: Val| v.push(x));
-    let mut op = take_ops_keyed(st);
-    let me = Coord::new(0, 0, 0);
-    let mut net = FakeNet::new(me);
-    net.with_metadata(vec![me], 0, BatchMode::fixed(1), |m| op.setup(m));
-    let mut lines = vec![];
-    loop {
-        let e = op.next();
-        let cnt = consumed.load(Ordering::SeqCst);
-        let term = matches!(e, StreamElement::Terminate);
-        let is_data = matches!(e, StreamElement::Item(_) | StreamElement::Timestamped(_, _));
-        let e = e.map(|(k, v)| Val::pair(k, Val::List(v)));
-        lines.push((is_data, cnt, format!("{cnt} {}", fmt_elem(&e))));
-        if term {
-            break;
-        }
-    }
-    canon(lines)
 }
 
 fn main() {
